@@ -121,6 +121,11 @@ PROJECTS = {
         {'a.py': 'from b import *\nxa = 1\n', 'b.py': 'from a import *\nxb = 1\n', 'd.py': 'from a import *\nxd = 1\n', 'e.py': 'from d import *\nxe = 1\n'},
         [('d.', 'import d\nd.', (2, 2)), ('d. after the star of b', 'from b import *\nimport d\nd.', (3, 2)), ('d. after the star of a', 'from a import *\nimport d\nd.', (3, 2)),
          ('e.', 'import e\ne.', (2, 2)), ('e. after the star of b', 'from b import *\nimport e\ne.', (3, 2)), ('names after the stars of b and d', 'from b import *\nfrom d import *\nx', (3, 1))]),
+    'dotted-import-in-another-text': (
+        {'pkg/__init__.py': 'VERSION = 1\n', 'pkg/sub.py': 'inner = 1\n', 'user.py': 'import pkg.sub\nu = 1\n'},
+        [('pkg. after import pkg', 'import pkg\npkg.', (2, 4)), ('pkg.sub. after import pkg.sub', 'import pkg.sub\npkg.sub.', (2, 8)),
+         ('pkg. after import pkg.sub', 'import pkg.sub\npkg.', (2, 4)), ('definition of pkg.sub after import pkg', 'import pkg\npkg.sub', (2, 7), 'location'),
+         ('pkg. after import pkg and user', 'import user\nimport pkg\npkg.', (3, 4))]),
     'from-import-cycle': ({'p.py': 'from q import qv\npv = 1\ndef pf(): return qv\n', 'q.py': 'from p import pv\nqv = 2\nclass Q:\n    attr = pv\n'},
                           [('p.', 'import p\np.', (2, 2)), ('q.', 'import q\nq.', (2, 2)), ('q.Q.', 'import q\nq.Q.', (2, 4)), ('p.pf().', 'import p\np.pf().', (2, 7))]),
 }
@@ -234,8 +239,12 @@ def request_pairs(run):
                     with open(os.path.join(top, fn), 'w') as f:
                         f.write(body)
 
-                def ask2(project, req, edited=edited):
-                    with project.check_changes():
+                import contextlib
+
+                def ask2(project, req, edited=edited, direct=False):
+                    # as the server asks (inside a change-checking context), or as a caller of the API does who holds a Project and never
+                    # enters one: C04 speaks of "one project", not of the context
+                    with (contextlib.nullcontext() if direct else project.check_changes()):
                         try:
                             if len(req) > 3 and req[3] == 'location':
                                 locs = A.location(project, req[1], req[2], os.path.join(top, edited))
@@ -262,6 +271,30 @@ def request_pairs(run):
                               seq[-1][0], [q[0] for q in seq[:-1]], got, alone[seq[-1][0]], files), path=path)
                 prove('%s:every-order-gives-the-same-answers' % pname, not bad,
                       clause='%d request histories on project %r, %d whose last answer differs from the answer on a fresh project' % (n, pname, len(bad)), path=path)
+                # the same pairs asked directly, without a change-checking context
+                bad_d = []
+                for seq in itertools.permutations(reqs, 2):
+                    p = Pj.Project([top])
+                    ask2(p, seq[0], direct=True)
+                    got = ask2(p, seq[1], direct=True)
+                    if got != alone[seq[1][0]]:
+                        bad_d.append((seq, got))
+                for seq, got in bad_d[:2]:
+                    script = ('import sys, os, tempfile, shutil; sys.path.insert(0, %r)\nfrom supp.assistant import assist, location\nfrom supp.project import Project\n'
+                              'd = tempfile.mkdtemp(prefix="supp-c04-")\ntry:\n    for fn, body in %r.items():\n        os.makedirs(os.path.dirname(os.path.join(d, fn)), exist_ok=True)\n'
+                              '        open(os.path.join(d, fn), "w").write(body)\n    def ask(p, r):\n        f = location if len(r) > 3 else assist\n        a = f(p, r[1], r[2], os.path.join(d, %r))\n'
+                              '        return a if len(r) > 3 else a[1]\n    p = Project([d]); ask(p, %r); after = ask(p, %r); alone = ask(Project([d]), %r)\n'
+                              '    print("after the other request:", after); print("alone:", alone)\n'
+                              '    print("REPRODUCED: without check_changes() the answer depends on the request made before it" if after != alone else "not reproduced")\n'
+                              'finally:\n    shutil.rmtree(d, ignore_errors=True)\n') % (core.REPO, files, edited, seq[0], seq[1], seq[1])
+                    core.RUN.concretise = lambda model, ob, seq=seq, script=script: {'input': [q[0] for q in seq], 'script': script}
+                    prove('%s[asked directly]:%s-after-%s' % (pname, seq[1][0], seq[0][0]), False,
+                          clause='without a change-checking context the answer to %s after %s differs from the answer alone [%r vs %r]; files %r' % (
+                              seq[1][0], seq[0][0], got, alone[seq[1][0]], files), path=path)
+                    core.RUN.concretise = None
+                prove('%s[asked directly]:every-order-gives-the-same-answers' % pname, not bad_d,
+                      clause='%d ordered pairs of requests on one Project outside check_changes(), %d whose second answer differs from the answer alone' % (
+                          len(reqs) * (len(reqs) - 1), len(bad_d)), path=path)
                 prove('%s:answers-are-not-trivial' % pname, sum(1 for v in alone.values() if isinstance(v, list) and v) >= 2, kind='lemma',
                       clause='at least two requests of the project have proposals [%r]' % ({k: (len(v) if isinstance(v, list) else v) for k, v in alone.items()},), path=path)
             finally:
